@@ -13,11 +13,9 @@
      hosts_authentic                   the trust domains of the presented URIs were authenticated by TLS
      partitions_literal                no partition a source stands for contains a regex metacharacter (namespace and
                                        service names are arbitrary: makeSpiffePattern quotes them since /repo d976793)
-     source_monotone                   a strictly narrower source has strictly higher precedence
      inverted_headers_present          the request carries every header that an inverted value matcher (Exact/Prefix/
                                        Suffix/Contains/Regex with Invert) of some permission asks about
-     translate_repaired                translate with the repair proposed in fixes/C14-drop-shadowed-source-intentions.patch
-                                       (an intention whose source is strictly inside a kept higher-precedence source is dropped) *)
+     translate_before_214d73a          the translator before removeShadowedSourceIntentions (regression witness only) *)
 From Verif Require Import Base.Prelude.
 From Verif Require Import RBAC.Model.
 From Verif Require Import RBAC.Order.
@@ -27,72 +25,40 @@ From Verif Require Import RBAC.Proofs.
 From Verif Require Import RBAC.Instance.
 
 (* The property at full strength: for every valid intention list, default policy, listener
-   kind, connection and request.  It is FALSE of the faithful model, for every regex engine
-   (C14_equiv_false), in two ways: C14_superset_refuted and C14_inverted_header_refuted.  A third way it used to fail (names spliced into
-   the regex unescaped) was repaired in /repo d976793 and is kept as a regression example. *)
+   kind, connection and request.  It is still FALSE of the faithful model, for every regex engine
+   (C14_equiv_false), in ONE way: C14_inverted_header_refuted.  Two other ways it used to fail are
+   repaired in /repo and kept as regression examples: names spliced unescaped (d976793,
+   C14_regex_regression) and a higher-precedence superset source not subtracted (214d73a,
+   C14_superset_regression). *)
 Definition C14_equiv (re : string -> string -> bool) : Prop :=
   forall cfg ixns dflt http conn req,
     well_formed cfg ixns -> partitions_literal cfg ixns -> hosts_authentic cfg ixns conn ->
     eval_rbac re (translate cfg ixns dflt http) conn req
     = intention_allows re cfg ixns dflt http conn req.
 
-(* (finding 9) `* -> web` deny (precedence 8) above `api -> *` allow (precedence 6), default
-   deny: every hypothesis below holds except source_monotone; precedence denies `api`, the
-   generated RBAC allows it. *)
-Theorem C14_superset_refuted : forall re,
-  well_formed w_cfg w_superset /\ partitions_literal w_cfg w_superset
-  /\ hosts_authentic w_cfg w_superset (w_conn "api") /\ ~ source_monotone w_cfg w_superset
-  /\ eval_rbac re (translate w_cfg w_superset false false) (w_conn "api") w_req = true
-  /\ intention_allows re w_cfg w_superset false false (w_conn "api") w_req = false.
-Proof.
-  intros re. destruct superset_witness_hyps as (H1 & H2 & H3 & H4). destruct (superset_witness re) as (H5 & H6).
-  exact (conj H1 (conj H2 (conj H3 (conj H4 (conj H5 H6))))).
-Qed.
-
-(* the same defect under default allow denies what precedence allows *)
-Theorem C14_superset_refuted_default_allow : forall re,
-  eval_rbac re (translate w_cfg w_superset' true false) (w_conn "api") w_req = false
-  /\ intention_allows re w_cfg w_superset' true false (w_conn "api") w_req = true.
-Proof. exact superset_witness_default_allow. Qed.
-
-(* (finding 8, repaired in /repo d976793) `web.v1 -> db` allow, default deny: the list meets every
-   hypothesis of C14_equiv_partial, `webxv1` is denied by both sides and `web.v1` allowed by both. *)
-Example C14_regex_regression : forall re,
-  well_formed w_cfg w_regex /\ partitions_literal w_cfg w_regex
-  /\ hosts_authentic w_cfg w_regex (w_conn "webxv1") /\ source_monotone w_cfg w_regex
-  /\ inverted_headers_present w_regex w_req
-  /\ eval_rbac re (translate w_cfg w_regex false false) (w_conn "webxv1") w_req = false
-  /\ intention_allows re w_cfg w_regex false false (w_conn "webxv1") w_req = false
-  /\ eval_rbac re (translate w_cfg w_regex false false) (w_conn "web.v1") w_req = true
-  /\ intention_allows re w_cfg w_regex false false (w_conn "web.v1") w_req = true.
-Proof.
-  intros re. destruct regex_list_hyps as (H1 & H2 & H3 & H4). destruct (regex_regression re) as (H5 & H6 & H7 & H8).
-  exact (conj H1 (conj H2 (conj H3 (conj H4 (conj (w_regex_inv w_req) (conj H5 (conj H6 (conj H7 H8)))))))).
-Qed.
-
-(* (finding: inverted header matcher, header absent) `web -> db` with permissions
+(* (open finding: inverted header matcher, header absent) `web -> db` with permissions
    [deny {x-internal Exact "yes" Invert}; allow {PathPrefix "/"}], default deny, HTTP: every hypothesis
    holds except inverted_headers_present; a request WITHOUT x-internal is denied by the intention's
    meaning ("x-internal is not yes") and allowed by the RBAC (Envoy ignores a value matcher on an
    absent header even when inverted).  The same request carrying `x-internal: no` is denied by both. *)
 Theorem C14_inverted_header_refuted : forall re,
   well_formed w_cfg w_inv_ixns /\ partitions_literal w_cfg w_inv_ixns
-  /\ hosts_authentic w_cfg w_inv_ixns (w_conn "web") /\ source_monotone w_cfg w_inv_ixns
+  /\ hosts_authentic w_cfg w_inv_ixns (w_conn "web")
   /\ ~ inverted_headers_present w_inv_ixns w_req /\ inverted_headers_present w_inv_ixns w_req_with
   /\ eval_rbac re (translate w_cfg w_inv_ixns false true) (w_conn "web") w_req = true
   /\ intention_allows re w_cfg w_inv_ixns false true (w_conn "web") w_req = false
   /\ eval_rbac re (translate w_cfg w_inv_ixns false true) (w_conn "web") w_req_with = false
   /\ intention_allows re w_cfg w_inv_ixns false true (w_conn "web") w_req_with = false.
 Proof.
-  intros re. destruct inverted_header_witness_hyps as (H1 & H2 & H3 & H4 & H5 & H6).
+  intros re. destruct inverted_header_witness_hyps as (H1 & H2 & H3 & _ & H5 & H6).
   destruct (inverted_header_witness re) as (H7 & H8 & H9 & H10).
-  exact (conj H1 (conj H2 (conj H3 (conj H4 (conj H5 (conj H6 (conj H7 (conj H8 (conj H9 H10))))))))).
+  exact (conj H1 (conj H2 (conj H3 (conj H5 (conj H6 (conj H7 (conj H8 (conj H9 H10)))))))).
 Qed.
 
 Theorem C14_equiv_false : forall re, ~ C14_equiv re.
 Proof.
-  intros re H. destruct superset_witness_hyps as (H1 & H2 & H3 & _). destruct (superset_witness re) as (H5 & H6).
-  rewrite (H w_cfg w_superset false false (w_conn "api") w_req H1 H2 H3) in H5. congruence.
+  intros re H. destruct inverted_header_witness_hyps as (H1 & H2 & H3 & _). destruct (inverted_header_witness re) as (H7 & H8 & _).
+  rewrite (H w_cfg w_inv_ixns false true (w_conn "web") w_req H1 H2 H3) in H7. congruence.
 Qed.
 
 Section C14.
@@ -100,37 +66,17 @@ Section C14.
   (* assumed of the regex engine: an alternation of valid method names matches exactly its members *)
   Hypothesis re_methods : re_alternation re.
 
-  (* Under hypotheses that exclude the two failing classes (source_monotone: sufficient, not
-     necessary - a non-monotone pair with equal decisions is harmless; inverted_headers_present:
-     exact per request), the generated RBAC decides every connection and request as the
-     precedence rules do, for arbitrary namespace and service names. *)
+  (* The generated RBAC decides every connection and request as the precedence rules do, for
+     arbitrary namespace and service names and ANY mix of sources, destinations and precedences
+     (no hypothesis on the precedence order since 214d73a).  inverted_headers_present is exact per
+     request and backed by the open finding above; partitions_literal / hosts_authentic are backed
+     by the open finding "trust domain and partition spliced unquoted". *)
   Theorem C14_equiv_partial : forall cfg ixns dflt http conn req,
     well_formed cfg ixns -> partitions_literal cfg ixns -> hosts_authentic cfg ixns conn ->
     inverted_headers_present ixns req ->
-    source_monotone cfg ixns ->
     eval_rbac re (translate cfg ixns dflt http) conn req
     = intention_allows re cfg ixns dflt http conn req.
-  Proof. exact (equiv_partial re re_methods). Qed.
-
-  (* Without source_monotone the error has one direction only: whenever precedence yields the
-     action that is NOT the default, so does the RBAC (default deny: nothing precedence
-     allows is denied; default allow: nothing precedence denies is allowed). *)
-  Theorem C14_nondefault_kept : forall cfg ixns dflt http conn req,
-    well_formed cfg ixns -> partitions_literal cfg ixns -> hosts_authentic cfg ixns conn ->
-    inverted_headers_present ixns req ->
-    intention_allows re cfg ixns dflt http conn req = negb dflt ->
-    eval_rbac re (translate cfg ixns dflt http) conn req = negb dflt.
-  Proof. exact (nondefault_kept re re_methods). Qed.
-
-  (* convertPermission: the Envoy permission matches exactly the requests the intention permission matches *)
-  (* With the repair of removeSourcePrecedence's blind spot the statement holds WITHOUT any
-     hypothesis on the precedence order: the open superset finding is exactly what the repair removes. *)
-  Theorem C14_equiv_repaired : forall cfg ixns dflt http conn req,
-    well_formed cfg ixns -> partitions_literal cfg ixns -> hosts_authentic cfg ixns conn ->
-    inverted_headers_present ixns req ->
-    eval_rbac re (translate_repaired cfg ixns dflt http) conn req
-    = intention_allows re cfg ixns dflt http conn req.
-  Proof. exact (equiv_repaired re re_methods). Qed.
+  Proof. exact (equiv re re_methods). Qed.
 
   (* convertPermission: the Envoy permission matches exactly the requests the intention permission
      matches, provided the request carries the headers inverted value matchers ask about
@@ -140,23 +86,39 @@ Section C14.
   Proof. exact (convert_permission_sem re re_methods). Qed.
 End C14.
 
-(* the repair removes the defect on both superset witnesses *)
-Example C14_superset_repaired : forall re,
-  eval_rbac re (translate_repaired w_cfg w_superset false false) (w_conn "api") w_req = false
-  /\ eval_rbac re (translate_repaired w_cfg w_superset' true false) (w_conn "api") w_req = true.
-Proof. exact superset_repaired. Qed.
+(* (finding 9, repaired in /repo 214d73a) `* -> web` deny (precedence 8) above `api -> *` allow
+   (precedence 6): the translator before the repair allowed `api` under default deny (and, with the
+   actions swapped, denied it under default allow); the translator of /repo HEAD agrees with precedence. *)
+Example C14_superset_regression : forall re,
+  well_formed w_cfg w_superset /\ partitions_literal w_cfg w_superset /\ hosts_authentic w_cfg w_superset (w_conn "api")
+  /\ eval_rbac re (translate_before_214d73a w_cfg w_superset false false) (w_conn "api") w_req = true
+  /\ intention_allows re w_cfg w_superset false false (w_conn "api") w_req = false
+  /\ eval_rbac re (translate w_cfg w_superset false false) (w_conn "api") w_req = false
+  /\ eval_rbac re (translate_before_214d73a w_cfg w_superset' true false) (w_conn "api") w_req = false
+  /\ intention_allows re w_cfg w_superset' true false (w_conn "api") w_req = true
+  /\ eval_rbac re (translate w_cfg w_superset' true false) (w_conn "api") w_req = true.
+Proof.
+  intros re. destruct superset_witness_hyps as (H1 & H2 & H3 & _).
+  destruct (superset_witness re) as (A1 & A2). destruct (superset_witness_default_allow re) as (B1 & B2).
+  destruct (superset_repaired re) as (C1 & C2).
+  exact (conj H1 (conj H2 (conj H3 (conj A1 (conj A2 (conj C1 (conj B1 (conj B2 C2)))))))).
+Qed.
 
-(* source_monotone holds whenever all intentions name the same destination (and carry the
-   precedence Intention.UpdatePrecedence gives them): the failing class needs a
-   wildcard-destination intention next to an exact-destination one. *)
-Theorem C14_same_destination_monotone : forall cfg ixns,
-  (forall i, In i ixns -> i_prec i = precedence_of i) ->
-  (forall i j, In i ixns -> In j ixns -> i_dst_ns i = i_dst_ns j /\ i_dst_name i = i_dst_name j) ->
-  source_monotone cfg ixns.
-Proof. exact same_destination_monotone. Qed.
+(* (finding 8, repaired in /repo d976793) `web.v1 -> db` allow, default deny: `webxv1` is denied by
+   both sides and `web.v1` allowed by both. *)
+Example C14_regex_regression : forall re,
+  well_formed w_cfg w_regex /\ partitions_literal w_cfg w_regex
+  /\ hosts_authentic w_cfg w_regex (w_conn "webxv1") /\ inverted_headers_present w_regex w_req
+  /\ eval_rbac re (translate w_cfg w_regex false false) (w_conn "webxv1") w_req = false
+  /\ intention_allows re w_cfg w_regex false false (w_conn "webxv1") w_req = false
+  /\ eval_rbac re (translate w_cfg w_regex false false) (w_conn "web.v1") w_req = true
+  /\ intention_allows re w_cfg w_regex false false (w_conn "web.v1") w_req = true.
+Proof.
+  intros re. destruct regex_list_hyps as (H1 & H2 & H3 & _). destruct (regex_regression re) as (H5 & H6 & H7 & H8).
+  exact (conj H1 (conj H2 (conj H3 (conj (w_regex_inv w_req) (conj H5 (conj H6 (conj H7 H8))))))).
+Qed.
 
-(* the reference is "first match in consul's precedence order": the list sorted by
-   IntentionPrecedenceSorter, searched from the front *)
+(* the reference is "first match in consul's precedence order" *)
 Theorem C14_reference_is_first_sorted_match : forall P ixns,
   find P (sort_ixns ixns) = best P ixns None.
 Proof. exact find_sorted_is_best. Qed.
@@ -172,59 +134,47 @@ Proof. exact spiffe_pat_covers. Qed.
 Theorem C14_quote_meta_exact : forall s w, raw_match (quote_meta s) w = (s =? w)%string.
 Proof. exact raw_match_quote_meta. Qed.
 
-(* ixnSourceMatches is sound (what removeSourcePrecedence and simplifyNotSourceSlice rely on) *)
+(* ixnSourceMatches is sound (what removeSourcePrecedence, simplifyNotSourceSlice and
+   removeShadowedSourceIntentions rely on) *)
 Theorem C14_source_match_sound : forall cfg conn xf a b,
   consistent a b -> ixn_source_matches a b = true ->
   src_matches cfg xf a conn = true -> src_matches cfg xf b conn = true.
 Proof. exact src_matches_subset. Qed.
 
-(* Non-vacuity: a regex engine meeting the hypothesis exists, and a list with exact, wildcard,
-   peered and L7 intentions, seen through the mesh gateway, meets all hypotheses together. *)
+(* Non-vacuity *)
 Theorem C14_regex_hypothesis_satisfiable : re_alternation re_inst.
 Proof. exact re_inst_alternation. Qed.
 
 Example C14_hypotheses_satisfiable :
   well_formed ex_cfg ex_ixns /\ partitions_literal ex_cfg ex_ixns
-  /\ hosts_authentic ex_cfg ex_ixns ex_conn /\ source_monotone ex_cfg ex_ixns
-  /\ forall req, inverted_headers_present ex_ixns req.
+  /\ hosts_authentic ex_cfg ex_ixns ex_conn /\ forall req, inverted_headers_present ex_ixns req.
 Proof.
-  destruct example_hyps as (H1 & H2 & H3 & H4). exact (conj H1 (conj H2 (conj H3 (conj H4 ex_ixns_inv)))).
+  destruct example_hyps as (H1 & H2 & H3 & _). exact (conj H1 (conj H2 (conj H3 ex_ixns_inv))).
 Qed.
-
-(* source_monotone is also met by lists with MIXED destinations (outside C14_same_destination_monotone) *)
-Example C14_monotone_mixed_destinations : source_monotone w_cfg ex_mixed
-  /\ exists i j, In i ex_mixed /\ In j ex_mixed /\ i_dst_name i <> i_dst_name j.
-Proof. exact ex_mixed_monotone. Qed.
-
-(* the hypotheses of C14_source_match_sound on a concrete pair *)
-Example C14_source_match_pair :
-  let a := RSvc "default" "default" "web" "" "" "test.consul" in
-  let b := RSvc "default" "default" "*" "" "" "test.consul" in
-  consistent a b /\ ixn_source_matches a b = true /\ src_matches w_cfg false a (w_conn "web") = true.
-Proof. exact ex_source_match_pair. Qed.
-
-(* the repaired translator on the superset witness list: every default and request *)
-Example C14_instance_repaired : forall dflt req,
-  eval_rbac re_inst (translate_repaired w_cfg w_superset dflt false) (w_conn "api") req
-  = intention_allows re_inst w_cfg w_superset dflt false (w_conn "api") req.
-Proof. exact instance_repaired. Qed.
 
 Example C14_instance : forall req,
   eval_rbac re_inst (translate ex_cfg ex_ixns false true) ex_conn req
   = intention_allows re_inst ex_cfg ex_ixns false true ex_conn req.
 Proof. exact instance_equiv. Qed.
 
-Print Assumptions C14_superset_refuted.
-Print Assumptions C14_superset_refuted_default_allow.
-Print Assumptions C14_regex_regression.
+(* a list OUTSIDE the old source_monotone hypothesis (the superset witness), every default and request *)
+Example C14_instance_mixed_precedence : forall dflt req,
+  eval_rbac re_inst (translate w_cfg w_superset dflt false) (w_conn "api") req
+  = intention_allows re_inst w_cfg w_superset dflt false (w_conn "api") req.
+Proof. exact instance_repaired. Qed.
+
+Example C14_source_match_pair :
+  let a := RSvc "default" "default" "web" "" "" "test.consul" in
+  let b := RSvc "default" "default" "*" "" "" "test.consul" in
+  consistent a b /\ ixn_source_matches a b = true /\ src_matches w_cfg false a (w_conn "web") = true.
+Proof. exact ex_source_match_pair. Qed.
+
 Print Assumptions C14_inverted_header_refuted.
 Print Assumptions C14_equiv_false.
 Print Assumptions C14_equiv_partial.
-Print Assumptions C14_nondefault_kept.
-Print Assumptions C14_equiv_repaired.
-Print Assumptions C14_superset_repaired.
 Print Assumptions C14_permission_exact.
-Print Assumptions C14_same_destination_monotone.
+Print Assumptions C14_superset_regression.
+Print Assumptions C14_regex_regression.
 Print Assumptions C14_reference_is_first_sorted_match.
 Print Assumptions C14_pattern_exact.
 Print Assumptions C14_quote_meta_exact.
@@ -232,6 +182,5 @@ Print Assumptions C14_source_match_sound.
 Print Assumptions C14_regex_hypothesis_satisfiable.
 Print Assumptions C14_hypotheses_satisfiable.
 Print Assumptions C14_instance.
-Print Assumptions C14_monotone_mixed_destinations.
+Print Assumptions C14_instance_mixed_precedence.
 Print Assumptions C14_source_match_pair.
-Print Assumptions C14_instance_repaired.
